@@ -93,6 +93,8 @@ fn p_c07() -> Profile {
 fn p_c08() -> Profile {
     let mut p = Profile::base();
     p.blob = Tri::Always;
+    p.blob_ingest = true;
+    p.w[W_INGEST] = 4;
     p.filter_fn = Tri::Maybe;
     p.w[W_SNAP_OPEN] = 5;
     p.w[W_SNAP_CLOSE] = 2;
@@ -132,6 +134,7 @@ fn p_c13() -> Profile {
 fn p_c14() -> Profile {
     let mut p = Profile::base();
     p.blob = Tri::Maybe;
+    p.blob_ingest = true;
     p.w[W_INGEST] = 14;
     p.w[W_SNAP_OPEN] = 6;
     p.w[W_SNAP_CLOSE] = 2;
@@ -205,6 +208,33 @@ fn p_c20() -> Profile {
     p.w[W_MAJOR] = 6;
     p.w[W_LEVELED] = 12;
     p
+}
+
+fn p_c05() -> Profile {
+    let mut p = Profile::base();
+    p.blob = Tri::Maybe;
+    p.blob_ingest = false;
+    p.min_ops = 4;
+    p.max_ops = 22;
+    p.w[W_WRITE] = 30;
+    p.w[W_BATCH] = 5;
+    p.w[W_FLUSH_ACTIVE] = 14;
+    p.w[W_FLUSH] = 3;
+    p.w[W_ROTATE] = 3;
+    p.w[W_LEVELED] = 8;
+    p.w[W_MAJOR] = 5;
+    p.w[W_MOVEDOWN] = 1;
+    p.w[W_PULLDOWN] = 2;
+    p.w[W_DROP_RANGE] = 3;
+    p.w[W_CLEAR] = 2;
+    p.w[W_INGEST] = 3;
+    p.w[W_REOPEN] = 3;
+    p.w[W_CLOCK] = 0;
+    p
+}
+
+fn nt_c05(s: &Stats) -> bool {
+    s.get("crash_images_with_pending_effects") >= 1
 }
 
 fn nt_c01(s: &Stats) -> bool {
@@ -312,6 +342,19 @@ pub fn all_props() -> Vec<PropDef> {
             nontrivial: nt_c04,
             final_reclaim: false,
             technique: "deterministic simulation: seeded history with reopen vs reference model",
+        },
+        PropDef {
+            id: "C05",
+            engine: EngineKind::Crash,
+            level: "fault_enumeration",
+            decisive: &["crash"],
+            quick_runs: 1500,
+            thorough_runs: 6000,
+            rule: "one run = one journaled history (create, writes, flush, compactions, clear, drop_range, ingest, reopen; standard and blob); one evaluation = one crash image = (journal prefix k, persistence outcome) on which the real recovery is executed in a forked process and the recovered content (values and seqnos) is compared with the durable logical content before/after the in-flight operation, then a write+flush must work, and with probability 1/4 a second crash during that recovery is injected. quick: 10 sampled prefixes (80% inside an operation) x {strict, lucky, ordered-prefix, 2 random permissive with torn writes}; thorough: every prefix x {strict, lucky, ordered-prefix, 4 random}. Non-trivial/distinct: distinct image content hashes among images for which unsynced effects were pending at the crash point.",
+            profile: p_c05,
+            nontrivial: nt_c05,
+            final_reclaim: false,
+            technique: "deterministic simulation: libc-level journal -> crash-image enumeration -> real recovery",
         },
         PropDef {
             id: "C07",
